@@ -25,6 +25,8 @@ pub struct Task {
     pub latency: usize,
     /// (extra hops, ttl parity) of the longer equal-cost branch; (0, _) = single path
     pub ecmp: (u8, u8),
+    /// initial sequence (default 33434)
+    pub init: u16,
 }
 
 pub fn scfg(t: &Task) -> SCfg {
@@ -54,7 +56,7 @@ pub fn scfg(t: &Task) -> SCfg {
         script: vec![],
         latency: t.latency,
         ecmp_longer: t.ecmp,
-        strategy: strat::strategy_config(t.proto, t.first_ttl, t.max_ttl, t.max_inflight, t.rounds, min_round, max_round, grace, 33434),
+        strategy: strat::strategy_config(t.proto, t.first_ttl, t.max_ttl, t.max_inflight, t.rounds, min_round, max_round, grace, t.init),
     }
 }
 
@@ -166,7 +168,7 @@ pub fn monitor(t: &Task, o: &SOutcome) -> Vec<(String, String)> {
 }
 
 pub fn task_json(t: &Task) -> Value {
-    json!({"proto": format!("{}", t.proto), "first_ttl": t.first_ttl, "max_ttl": t.max_ttl, "max_inflight": t.max_inflight, "target_distance": t.l, "rounds": t.rounds, "latency": t.latency, "ecmp": [t.ecmp.0, t.ecmp.1]})
+    json!({"proto": format!("{}", t.proto), "first_ttl": t.first_ttl, "max_ttl": t.max_ttl, "max_inflight": t.max_inflight, "target_distance": t.l, "rounds": t.rounds, "latency": t.latency, "ecmp": [t.ecmp.0, t.ecmp.1], "initial_sequence": t.init})
 }
 
 pub fn task_from_json(v: &Value) -> Task {
@@ -184,6 +186,7 @@ pub fn task_from_json(v: &Value) -> Task {
         bound: 0,
         latency: v["latency"].as_u64().unwrap_or(0) as usize,
         ecmp: (v["ecmp"][0].as_u64().unwrap_or(0) as u8, v["ecmp"][1].as_u64().unwrap_or(0) as u8),
+        init: v["initial_sequence"].as_u64().map_or(33434, |x| x as u16),
     }
 }
 
@@ -217,18 +220,28 @@ pub fn run(args: &Args) -> i32 {
                         // the full bound on short ttl ranges, one less on long ones
                         let big = u16::from(max_ttl - first_ttl) > 5 || (u16::from(max_ttl - first_ttl) > 2 && max_inflight > 3);
                         for latency in [0usize, 2] {
-                            tasks.push(Task { proto, first_ttl, max_ttl, max_inflight, l, rounds: 3, bound: if big { bound - 1 } else { bound }, latency, ecmp: (0, 0) });
+                            tasks.push(Task { proto, first_ttl, max_ttl, max_inflight, l, rounds: 3, bound: if big { bound - 1 } else { bound }, latency, ecmp: (0, 0), init: 33434 });
                             // equal-cost branches of different length: the path is not stable, every
                             // other clause still holds (in particular: nothing is sent after the
                             // target has answered in the round)
                             if l >= 2 && latency == 2 && max_inflight >= 2 && max_ttl > l {
                                 for ecmp in [(1u8, 0u8), (1, 1), (2, 0), (2, 1)] {
-                                    tasks.push(Task { proto, first_ttl, max_ttl, max_inflight, l, rounds: 2, bound: if big { bound - 1 } else { bound.min(3) }, latency, ecmp });
+                                    tasks.push(Task { proto, first_ttl, max_ttl, max_inflight, l, rounds: 2, bound: if big { bound - 1 } else { bound.min(3) }, latency, ecmp, init: 33434 });
                                 }
                             }
                         }
                     }
                 }
+            }
+        }
+    }
+    // long runs across the restart of the sequence space (what a round resets must also be reset in
+    // the round that restarts the numbering): from the highest initial sequence, 6 probes per round
+    // to a silent target (restart after 86 rounds) and 3 per round to an answering one (171 rounds)
+    for proto in [Protocol::Icmp, Protocol::Tcp] {
+        for (l, max_ttl, rounds) in [(0u8, 6u8, 100usize), (3, 6, 190)] {
+            for latency in [0usize, 2] {
+                tasks.push(Task { proto, first_ttl: 1, max_ttl, max_inflight: 24, l, rounds, bound: if tier == Tier::Thorough { 2 } else { 1 }, latency, ecmp: (0, 0), init: 64511 });
             }
         }
     }
@@ -241,7 +254,7 @@ pub fn run(args: &Args) -> i32 {
         let mut first = true;
         let mut replays = 0u64;
         let mut sample = None;
-        let stats = mc::explore(t.bound, 300, &mut |ch| {
+        let stats = mc::explore(t.bound, if t.init == 33434 { 300 } else { 6000 }, &mut |ch| {
             let c = std::mem::replace(ch, Chooser::new(&[], 0));
             let o = strat::run_strategy(scfg(t), c);
             *ch = o.world.chooser.clone();
@@ -249,7 +262,7 @@ pub fn run(args: &Args) -> i32 {
             let dg = digest(&o);
             digests.insert(dg);
             if first || !bad.is_empty() {
-                let o2 = strat::run_strategy(scfg(t), Chooser::new(&ch.choices, 300));
+                let o2 = strat::run_strategy(scfg(t), Chooser::new(&ch.choices, 6000));
                 assert!(digest(&o2) == dg, "MACHINERY: nondeterministic replay (C06)");
                 replays += 1;
                 if first && ti % 61 == 0 {
@@ -315,7 +328,7 @@ pub fn run(args: &Args) -> i32 {
     rep.set("bound_completed", json!(bound));
     rep.set("horizon_hits", json!(stats.horizon_hits));
     rep.set("determinism_replays", json!(replays));
-    rep.set("rule", json!(format!("protocol {{icmp,tcp}} x first_ttl {{1,2,5,30,253,254}} x max_ttl {{1,3,6,64,254}} x max_inflight {{1,2,3,24,255}} x target distance {{1,2,3,6,silent}} x response latency {{0, 2 receive calls}} (+ equal-cost branches of different length for distances >= 2), 3 rounds: all executions of the real Strategy::run with <= {bound} deviations (delay, reorder, duplicate, loss at recv_probe; AddressInUse at send_probe for tcp, transient ProbeFailed at any send_probe); monitor on the send/receive call trace; states = nodes of the choice tree; distinct_nontrivial = distinct (send trace, publish times) digests")));
+    rep.set("rule", json!(format!("protocol {{icmp,tcp}} x first_ttl {{1,2,5,30,253,254}} x max_ttl {{1,3,6,64,254}} x max_inflight {{1,2,3,24,255}} x target distance {{1,2,3,6,silent}} x response latency {{0, 2 receive calls}} (+ equal-cost branches of different length for distances >= 2; + long runs from initial sequence 64511 across the restart of the sequence space: 100 rounds x 6 probes to a silent target, 190 rounds x 3 probes to an answering one, <= 1 (2 thorough) deviations), 3 rounds: all executions of the real Strategy::run with <= {bound} deviations (delay, reorder, duplicate, loss at recv_probe; AddressInUse at send_probe for tcp, transient ProbeFailed at any send_probe); monitor on the send/receive call trace; states = nodes of the choice tree; distinct_nontrivial = distinct (send trace, publish times) digests")));
     for s in samples {
         rep.sample(s);
     }
